@@ -495,6 +495,9 @@ type c19Registry struct {
 	mu     sync.Mutex
 	claims map[string]int // key -> number of nil answers
 	calls  map[string]int
+	wins   int // total nil answers
+	asked  int // total calls that reached the table
+	keys   []string
 	failN  atomic.Int64 // every failN-th call fails with a non-claim error (0 = never)
 	ncalls atomic.Int64
 }
@@ -523,10 +526,15 @@ func (c *c19Cluster) ClaimScheduleFire(_ context.Context, key string, _ time.Dur
 	c.reg.mu.Lock()
 	defer c.reg.mu.Unlock()
 	c.reg.calls[key]++
+	c.reg.asked++
+	if len(c.reg.keys) < 4096 {
+		c.reg.keys = append(c.reg.keys, key)
+	}
 	if c.reg.claims[key] > 0 {
 		return cluster.ErrScheduleFireClaimed
 	}
 	c.reg.claims[key]++
+	c.reg.wins++
 	return nil
 }
 
@@ -610,6 +618,9 @@ func c19ClusterPart(t *testing.T, seed int64, ticks int, realCron bool) (obs c19
 		}
 		before := total()
 		key := fmt.Sprintf("%s@%d", ref, runTime)
+		reg.mu.Lock()
+		wins0, asked0, keys0 := reg.wins, reg.asked, len(reg.keys)
+		reg.mu.Unlock()
 		type ret struct {
 			ok  bool
 			err error
@@ -633,8 +644,13 @@ func c19ClusterPart(t *testing.T, seed int64, ticks int, realCron bool) (obs c19
 		delivered := total() - before
 		obs.Ticks++
 		obs.Delivered += delivered
+		// ticks are played one after the other: what the registry saw during this tick
 		reg.mu.Lock()
-		won, asked := reg.claims[key], reg.calls[key]
+		won, asked := reg.wins-wins0, reg.asked-asked0
+		var keysUsed []string
+		if keys0 < len(reg.keys) {
+			keysUsed = append(keysUsed, reg.keys[keys0:]...)
+		}
 		reg.mu.Unlock()
 		if asked > 1 {
 			obs.Contended++
@@ -644,13 +660,16 @@ func c19ClusterPart(t *testing.T, seed int64, ticks int, realCron bool) (obs c19
 			for _, x := range rets {
 				rs = append(rs, fmt.Sprintf("(%v,%v)", x.ok, x.err))
 			}
-			return map[string]any{"key": key, "stale": stale, "delivered": delivered, "registry_nil_answers": won, "registry_calls": asked, "job_returns": rs}
+			return map[string]any{"key": key, "stale": stale, "delivered": delivered, "registry_nil_answers": won, "registry_calls": asked, "registry_keys_used": keysUsed, "job_returns": rs}
 		}
 		if delivered > 1 {
 			obs.Viol = append(obs.Viol, verifrt.Violation{Sig: "cron-tick-delivered-more-than-once", Detail: detail()})
 		}
 		if stale && delivered > 0 {
 			obs.Viol = append(obs.Viol, verifrt.Violation{Sig: "cron-stale-tick-delivered", Detail: detail()})
+		}
+		if won > 1 {
+			obs.Viol = append(obs.Viol, verifrt.Violation{Sig: "cron-tick-claimed-under-several-keys", Detail: detail()})
 		}
 		if !stale && won == 1 && delivered == 0 {
 			obs.Viol = append(obs.Viol, verifrt.Violation{Sig: "cron-tick-lost:claim-won-but-not-delivered", Detail: detail()})
